@@ -119,10 +119,10 @@ def run(ctx):
                         eq = any(c[0][0] == "cmp" and c[0][1] == "eq" and c[1] is True for c in p.conds)
                         ctx.ob("R10.5", key + "/unchanged weight", eq, sites=[e.site],
                                detail="stake changed, membership not written, and no decision that the weight is unchanged", sample={"unchanged": True})
-    ctx.floor("R10.2", "bond paths", n_bond, 6)
-    ctx.floor("R10.2", "unbond paths", n_unbond, 3)
+    ctx.floor("R10.2", "bond paths", n_bond, 2)
+    ctx.floor("R10.2", "unbond paths", n_unbond, 1)
     ctx.floor("R10.4", "claim paths", n_claim, 2)
-    ctx.floor("R10.1", "weight writes", n_weight, 6)
+    ctx.floor("R10.1", "weight writes", n_weight, 2)
 
 
 def check_bond(ctx, p, key, variant, sw, cl, cfg):
